@@ -171,6 +171,6 @@ def registry():
                  'xor': 'all(old(out)[old(data_len) - data_len + t] == old(in[old(data_len) - data_len + t]) ^ ctr_state.keystream[ctr_state.used_ks + t] '
                         'for t in range(j))',
                  'unread': 'all(i >= old(data_len) - data_len + j ==> old(in)[i] == old(in[i]) for i in range(old(data_len)))',
-                 'earlier': 'all(i < old(data_len) - data_len ==> old(out)[i] == at_loop_head(old(out)[i]) for i in range(old(data_len)))'},
+                 'earlier': 'all(i < old(data_len) - data_len ==> old(out)[i] == pre(old(out)[i]) for i in range(old(data_len)))'},
                  decreases='ks_to_use - j')})
     return R
